@@ -5,5 +5,5 @@ CONSTANTS
   CorruptPos = {}
 INIT Init
 NEXT Next
-INVARIANTS TypeOK IllegalRejected RoundTrip ReservedZero SuffixZero PrefixKept AddrPlaced Injective ArpaRoundTrip PtrBack CorruptStrict
+INVARIANTS TypeOK IllegalRejected RoundTrip ReservedZero SuffixZero PrefixKept AddrPlaced ArpaRoundTrip PtrBack CorruptStrict
 CHECK_DEADLOCK FALSE
